@@ -57,8 +57,8 @@ class InfoFilePersister:
                                                            name_too_long)
             trashinfo_path = os.path.join(data.info_dir_path,
                                           trashinfo_basename)
-            # lexists: a dangling symlink in files/ occupies the name too
-            if os.path.lexists(path_of_backup_copy(trashinfo_path)):
+            # a dangling symlink in files/ occupies the name too
+            if payload_name_taken(path_of_backup_copy(trashinfo_path)):
                 index += 1
                 continue
             try:
@@ -78,6 +78,18 @@ class InfoFilePersister:
                                         "attempt for creating %s failed." % trashinfo_path)
 
             index += 1
+
+
+def payload_name_taken(path):
+    try:
+        os.lstat(path)
+    except OSError as e:
+        if e.errno in (errno.ENOENT, errno.ENOTDIR):
+            return False
+        # EACCES, EIO, ...: we could not look. Do not guess that the name is
+        # free (a file left there without its .trashinfo would be replaced)
+        raise
+    return True
 
 
 def create_trashinfo_basename(basename, suffix, name_too_long):
